@@ -122,6 +122,16 @@ def make_lib_op(rng, cls):
 
 def deep_text(rng):
     k = rng.random()
+    if k < 0.3:
+        # overflow while *evaluating* (inside deferred evaluation), not while parsing
+        n = rng.randint(60, 700)
+        form = rng.random()
+        if form < 0.4:
+            return "x = 1\n.word " + "-" * n + "x\n"
+        if form < 0.7:
+            return ".word " + "1+" * n + "x\nx = 1\n"
+        return "y = " + "1+" * n + "x\n.word y\nx = 2\n"
+    k = rng.random()
     if k < 0.4:
         n = rng.randint(40, 300)
         return "".join("a%d = a%d + 1\n" % (i, i + 1) for i in range(n)) + "a%d = 1\n.word a0\n" % n
